@@ -128,7 +128,9 @@ def render(mapping, fmt='json'):
         return yaml.safe_dump(mapping, default_flow_style=False, allow_unicode=True)
     if fmt == 'yaml-lines':
         # the hand-written style of sample files: "name": "rule" per line
-        return ''.join('%s: %s\n' % (json.dumps(k), json.dumps(v)) for k, v in mapping.items())
+        # (ensure_ascii=False: a JSON escape of a character outside the basic plane is a surrogate pair, which YAML reads
+        # as two characters - the harness must not mangle its own input)
+        return ''.join('%s: %s\n' % (json.dumps(k, ensure_ascii=False), json.dumps(v, ensure_ascii=False)) for k, v in mapping.items())
     raise ValueError(fmt)
 
 
